@@ -16,7 +16,7 @@ META = dict(
     stubs=['struct.pack/unpack (>L >h)', 'bytearray/bytes/memoryview/array proxies', 'bytes.translate as table lookup (UF + point axioms read from the live table)'],
     outside=['soft bit -128 (not a valid soft bit)', 'header versions other than 0 and 1 (rejected by validate)'],
     assumptions=['the builtin models agree with CPython (conformance run in setup: vf.conformance)'],
-    explanation='for each shape: m = arbitrary valid message; d = parse_msg(gen_msg(m, legacy)); one obligation per field and per burst element d.x == m.x; '
+    explanation='for each shape: m = arbitrary valid message; d = parse_msg(gen_msg(m, legacy)) into a fresh decoder object and into decoder objects that decoded a burst message / a header-only message before; one obligation per field and per burst element d.x == m.x; '
                 'legacy-padded v0 equals unpadded by transitivity (both equal m)')
 
 
@@ -35,18 +35,48 @@ def jobs(tier, seed):
     return out
 
 
+def primed(ctx, T, cls, kind):
+    """a decoder object that has already decoded another (concrete) message: decoding must not depend on what it held"""
+    dm = T.data_msg
+    d = cls()
+    if kind == 'fresh': return d
+    if cls is dm.TxMsg:
+        p = dm.TxMsg(ver=1, fn=1234567, tn=5, burst=bytearray([1, 0] * (222 if kind == 'after-burst' else 74)))
+        p.pwr = 77
+        raw = p.gen_msg() if kind == 'after-burst' else p.gen_msg()[:p.HDR_LEN]
+    else:
+        p = dm.RxMsg(ver=1, fn=2345678, tn=6)
+        p.rssi = -101; p.toa256 = -321; p.ci = -77
+        if kind == 'after-burst':
+            p.mod_type = dm.Modulation.Mod8PSK; p.tsc = 5; p.tsc_set = 1; p.nope_ind = False
+            import array
+            p.burst = array.array('b', [(-1) ** i * (i % 127) for i in range(444)])
+        else:
+            p.nope_ind = True; p.burst = None
+        raw = p.gen_msg()
+    old = pysym.SYMBOLIC; pysym.SYMBOLIC = False
+    try: d.parse_msg(bytearray(raw))
+    finally: pysym.SYMBOLIC = old
+    return d
+
+
+PRIMINGS = ('fresh', 'after-burst', 'after-header-only')
+
+
 def h_tx(ctx, ver, blen, legacy):
     T = env.load(ctx, 'data_msg')
     with env.symbolic(ctx), ctx.no_raise('no-exception'):
         m = sym_tx(ctx, T, ver, blen)
         data = m.gen_msg(legacy)
-        d = T.data_msg.TxMsg()
-        d.parse_msg(data)
-    for f in ('ver', 'fn', 'tn', 'pwr'):
-        ctx.check(f, eq(getattr(d, f), getattr(m, f)))
-    ctx.check('burst.present', d.burst is not None)
-    if d.burst is not None:
-        check_seq_eq(ctx, 'burst', d.burst, m.burst)
+    for kind in PRIMINGS:
+        with env.symbolic(ctx), ctx.no_raise(kind + ':no-exception'):
+            d = primed(ctx, T, T.data_msg.TxMsg, kind)
+            d.parse_msg(data)
+        for f in ('ver', 'fn', 'tn', 'pwr'):
+            ctx.check(kind + ':' + f, eq(getattr(d, f), getattr(m, f)))
+        ctx.check(kind + ':burst.present', d.burst is not None)
+        if d.burst is not None:
+            check_seq_eq(ctx, kind + ':burst', d.burst, m.burst)
 
 
 def h_rx(ctx, ver, mod, nope, legacy):
@@ -54,22 +84,25 @@ def h_rx(ctx, ver, mod, nope, legacy):
     with env.symbolic(ctx), ctx.no_raise('no-exception'):
         m = sym_rx(ctx, T, ver, mod, nope)
         data = m.gen_msg(legacy)
-        d = T.data_msg.RxMsg()
-        d.parse_msg(data)
-    for f in ('ver', 'fn', 'tn', 'rssi', 'toa256'):
-        ctx.check(f, eq(getattr(d, f), getattr(m, f)))
-    if ver >= 1:
-        ctx.check('ci', eq(d.ci, m.ci))
-        ctx.check('nope_ind', d.nope_ind == nope)
-        if not nope:
-            ctx.check('mod_type', d.mod_type is m.mod_type)
-            ctx.check('tsc', eq(d.tsc, m.tsc)); ctx.check('tsc_set', eq(d.tsc_set, m.tsc_set))
-    else:
-        # v0 guesses the modulation from the length: 148 -> GMSK, 444 -> 8-PSK
-        ctx.check('mod_type', d.mod_type is getattr(T.data_msg.Modulation, mod))
-    if nope:
-        ctx.check('burst.absent', d.burst is None)
-    else:
-        ctx.check('burst.present', d.burst is not None)
-        if d.burst is not None:
-            check_seq_eq(ctx, 'burst', d.burst, m.burst)
+    for kind in PRIMINGS:
+        with env.symbolic(ctx), ctx.no_raise(kind + ':no-exception'):
+            d = primed(ctx, T, T.data_msg.RxMsg, kind)
+            d.parse_msg(data)
+        K = kind + ':'
+        for f in ('ver', 'fn', 'tn', 'rssi', 'toa256'):
+            ctx.check(K + f, eq(getattr(d, f), getattr(m, f)))
+        if ver >= 1:
+            ctx.check(K + 'ci', eq(d.ci, m.ci))
+            ctx.check(K + 'nope_ind', d.nope_ind == nope)
+            if not nope:
+                ctx.check(K + 'mod_type', d.mod_type is m.mod_type)
+                ctx.check(K + 'tsc', eq(d.tsc, m.tsc)); ctx.check(K + 'tsc_set', eq(d.tsc_set, m.tsc_set))
+        else:
+            # v0 guesses the modulation from the length: 148 -> GMSK, 444 -> 8-PSK
+            ctx.check(K + 'mod_type', d.mod_type is getattr(T.data_msg.Modulation, mod))
+        if nope:
+            ctx.check(K + 'burst.absent', d.burst is None)
+        else:
+            ctx.check(K + 'burst.present', d.burst is not None)
+            if d.burst is not None:
+                check_seq_eq(ctx, K + 'burst', d.burst, m.burst)
